@@ -249,6 +249,135 @@ def strings(rnd, thorough):
         emit({"e": "str", "n": n, "ops": ops, "final": [s[i] for i in range(n)], "len": len(s)})
 
 
+# ---- FixedVArray (variable-length rows) ----------------------------------------------------------------------
+
+def varrays(rnd, thorough):
+    keys = [-4, -3, -2, -1, 0, 1, 2, 3, (NONE, NONE, NONE), (0, 2, NONE), (1, NONE, NONE), (NONE, 2, NONE), (0, 3, 2), (1, 3, 1), (2, 1, NONE),
+            (-2, NONE, NONE), (NONE, -1, NONE), (0, 9, NONE), (5, 9, NONE), (NONE, NONE, 2)]
+    size_sets = [[2], [0], [1, 3], [2, 2, 2], [3, 0, 1], [1, 2, 3]]
+    for cname, acls, conv in (("VIntArray", "IntArray", int), ("VFloatArray", "FloatArray", float)):
+        if not hasattr(imath, cname):
+            continue
+        cls = getattr(imath, cname)
+        A = getattr(imath, acls)
+
+        def build(sizes):
+            sz = imath.IntArray(len(sizes))
+            for i, x in enumerate(sizes):
+                sz[i] = x
+            v = cls(sz, conv(0))
+            for i, x in enumerate(sizes):
+                row = v[i]
+                for j in range(x):
+                    row[j] = conv(10 * i + j + 1)
+            return v
+
+        def full(v):
+            return [[ival(v[i][j]) for j in range(len(v[i]))] for i in range(len(v))]
+
+        def rowdata(m, base):
+            d = A(m)
+            for j in range(m):
+                d[j] = conv(base + j)
+            return d
+
+        for sizes in size_sets:
+            n = len(sizes)
+            base = {"cls": cname, "sizes": sizes}
+            v = build(sizes)
+            emit(dict(base, e="varr", op="size", len=len(v), out=[len(v[i]) for i in range(n)], full=full(v)))
+            ks = keys if thorough else rnd.sample(keys, 10)
+            for k in ks:
+                isint = 0 if isinstance(k, tuple) else 1
+                # selection
+                v = build(sizes)
+                exc, rows = 0, []
+                try:
+                    sel = v[key2(k)]
+                    rows = [[ival(sel[i][j]) for j in range(len(sel[i]))] for i in range(len(sel))] if not isint else [[ival(sel[j]) for j in range(len(sel))]]
+                except BaseException:  # noqa
+                    exc = 1
+                emit(dict(base, e="varr", op="get", key=jkey(k), isint=isint, exc=exc, rows=rows))
+                # every selected row := one data array (lengths must agree)
+                for m in sorted(set(sizes + [1]))[:3]:
+                    v = build(sizes)
+                    exc = 0
+                    try:
+                        v[key2(k)] = rowdata(m, 100)
+                    except BaseException:  # noqa
+                        exc = 1
+                    emit(dict(base, e="varr", op="setrow", key=jkey(k), isint=isint, m=m, exc=exc, full=full(v)))
+                # selected rows := the rows of another variable array (lengths may change)
+                for ds in ([2], [1, 0], [3, 1, 2]):
+                    v = build(sizes)
+                    d = cls(imath.IntArray(len(ds)), conv(0)) if False else None
+                    dsz = imath.IntArray(len(ds))
+                    for i, x in enumerate(ds):
+                        dsz[i] = x
+                    d = cls(dsz, conv(0))
+                    for i, x in enumerate(ds):
+                        for j in range(x):
+                            d[i][j] = conv(200 + 10 * i + j)
+                    exc = 0
+                    try:
+                        v[key2(k)] = d
+                    except BaseException:  # noqa
+                        exc = 1
+                    emit(dict(base, e="varr", op="setvec", key=jkey(k), isint=isint, ds=ds, exc=exc, full=full(v)))
+            # a row is a view: it aliases the array and stays valid after the array object is released
+            for i in range(-n - 1, n + 1):
+                v = build(sizes)
+                exc, row, alias = 0, [], 0
+                try:
+                    r = v[i]
+                    if len(r) > 0:
+                        r[0] = conv(55)
+                        alias = 1 if ival(v[i][0]) == 55 else 0
+                    del v
+                    gc.collect()
+                    junk = [build([4, 4, 4]) for _ in range(8)]
+                    row = [ival(r[j]) for j in range(len(r))]
+                    del junk
+                except BaseException:  # noqa
+                    exc = 1
+                emit(dict(base, e="varr", op="view", i=i, exc=exc, row=row, alias=alias))
+            # masks select rows
+            for mk in range(1 << n) if n <= 3 else []:
+                v = build(sizes)
+                mask = imath.IntArray(n)
+                bits = [(mk >> i) & 1 for i in range(n)]
+                for i in range(n):
+                    mask[i] = bits[i] * (i + 1)
+                exc, rows = 0, []
+                try:
+                    sel = v[mask]
+                    rows = [[ival(sel[i][j]) for j in range(len(sel[i]))] for i in range(len(sel))]
+                except BaseException:  # noqa
+                    exc = 1
+                emit(dict(base, e="varr", op="getmask", mask=bits, exc=exc, rows=rows))
+            # read-only: nothing writes, everything that tries raises
+            v = build(sizes)
+            v.makeReadOnly()
+            raised, tried = 0, 0
+            attempts = []
+            if n > 0:
+                attempts.append(lambda: v.__setitem__(0, rowdata(sizes[0], 100)))
+                attempts.append(lambda: v.__setitem__(slice(None, None, None), build(sizes)))
+                if sizes[0] > 0:
+                    attempts.append(lambda: v[0].__setitem__(0, conv(9)))
+                mask = imath.IntArray(n)
+                for i in range(n):
+                    mask[i] = 1
+                attempts.append(lambda: v.__setitem__(mask, build(sizes)))
+            for a in attempts:
+                tried += 1
+                try:
+                    a()
+                except BaseException:  # noqa
+                    raised += 1
+            emit(dict(base, e="varr", op="ro", tried=tried, raised=raised, writable=1 if v.writable() else 0, full=full(v)))
+
+
 def main():
     seed = int(sys.argv[1])
     thorough = sys.argv[2] == "thorough"
@@ -259,6 +388,7 @@ def main():
     masks2d(rnd, thorough)
     matrices(rnd, thorough)
     strings(rnd, thorough)
+    varrays(rnd, thorough)
 
 
 main()
